@@ -92,7 +92,7 @@ def registry_family(pid, tier, chk=None):
         chk.exhaustive_parts.append("MC_Registry: universe full1 (every single sample with two nested objects over x, y, f) x 4 policies")
         chk.rng.shuffle(mcr)
         mcr = mcr[:4000]
-    cases = mcr + cases
+    cases = mcr + DR.two_level_cases(chk.rng, 120 if quick else 1500) + cases
     traces, inputs = DR.registry_traces(pid, chk, cases)
     chk.rules.append("%d TLC-enumerated inputs of MC_Registry + %d seeded random nested inputs x merge policies through the real ModelRegistry "
                      "(generate, process_meta_data, merge_models, second optimise pass)" % (len(mcr), n_random))
@@ -378,6 +378,10 @@ def module_family(pid, tier, chk, n=None):
     cases = DM.module_cases_random(chk, n)
     what = "%d seeded random nested inputs with styled keys x frameworks x layouts x options" % n
     m = 300 if quick else 5000
+    if pid == "C01":
+        mp = DM.mixed_pseudo_cases(chk, 150 if quick else 2000)
+        cases += mp
+        what += " + %d fields mixing two pseudo-types (date/datetime/time/int/float/bool strings, plain strings)" % len(mp)
     if pid == "C10":
         lit = DM.mc_lit_cases(chk)
         chk.exhaustive_parts.append("MC_Lit: every abstract literal case (%d): the algorithm layer obeys the literal rule" % len(lit))
